@@ -119,6 +119,25 @@ pub fn gen_c01(rng: &mut Rng, tier: Tier) -> Scenario {
         Tier::Thorough => 1000,
     };
     let mut sc = gen_scenario(rng, true, false, false, 4, max_steps);
+    // many-sided regular polygons (the CLI accepts any --sides): rare because both the
+    // implementation's edge-pair test and the oracle are quadratic in the number of sides
+    let big = rng.below(1000);
+    if big < 4 {
+        let sides = if big < 1 { 1000 } else { *rng.pick(&[50usize, 200, 400]) };
+        sc.shape = ShapeSpec::Polygon(sides);
+        sc.group = rng.pick(&["p1", "p2", "p1g1", "p2gg"]).to_string();
+        sc.chain = vec![Op::Stage(OptCfg {
+            steps: if sides >= 1000 { 30 } else { 120 },
+            inner: 20,
+            kt_start: 0.0,
+            kt_finish: None,
+            kt_ratio: Some(0.0),
+            max_step: *rng.pick(&[0.1, 0.5]),
+            convergence: None,
+            seed: rng.below(1 << 32),
+        })];
+        return sc;
+    }
     // "clamp storm": zero-temperature stages with the largest step sizes drive site and cell
     // parameters onto their bounds (x = +-1/2, orientation 0 / 2pi, cell angle pi/6), which is how
     // copies displaced exactly along an edge direction arise
@@ -203,7 +222,7 @@ impl Check for C01 {
     }
     fn runs(&self, tier: Tier) -> u64 {
         match tier {
-            Tier::Quick => 3_000,
+            Tier::Quick => 20_000,
             Tier::Thorough => 200_000,
         }
     }
